@@ -1284,6 +1284,9 @@ def log_atom(x):
         return ZERO(c)
     if x.L is not None:
         raise TypeError("log of exp-carrying value")
+    if x.is_const and x.k <= 0:
+        # numpy returns -inf / nan here; infinities are not modelled
+        raise Unsupported(f"log of the non-positive constant {x.k}")
 
     def make():
         atom, node = c.new_atom("log", "log", x, None, positive=False)
